@@ -65,8 +65,9 @@ def gen_num_expr(rnd, depth, want_int=False):
         if k < 0.67:
             return col("nokey"), True
         if want_int or k < 0.9:
-            return num(rnd.choice([0, 1, 2, 3, 5, -2, 10])), True
-        return num(rnd.choice([0.5, 1.5, 2.5, -0.25])), False
+            return num(rnd.choice([0, 1, 2, 3, 5, -2, 10, 16777217])), True
+        # (constants a narrower float would not hold: non-dyadic fractions, more than 24 significant bits)
+        return num(rnd.choice([0.5, 1.5, 2.5, -0.25, 0.1, 0.3, 123456.789])), False
     k = rnd.random()
     if k < 0.12:
         e, ii = gen_num_expr(rnd, depth - 1, want_int)
